@@ -339,7 +339,9 @@ def subprocess_lib(I):
             raise Raised(Obj(TimeoutExpired, {"args": ()}))
         if self.attrs["returncode"] is None:
             self.attrs["returncode"] = I_.ctx.fresh_int("exit_code")
-        return (OpaqueStr(), OpaqueStr())
+        out, err = OpaqueStr(), OpaqueStr()
+        out._from_communicate = err._from_communicate = True      # ghost: what the child wrote
+        return (out, err)
 
     def wait(I_, self, timeout=None):
         # subprocess documentation: wait() "will deadlock when using stdout=PIPE or stderr=PIPE and the child process
@@ -495,7 +497,12 @@ def ens_is_finished(I, env):
     p = env.vars["self"].attrs["_process"]
     res = env.vars["result"]
     rc = p.attrs["returncode"]
-    return [("true_iff_exit_code", natives.eq(I, res, rc is not None))]
+    attrs = env.vars["self"].attrs
+    captured = all(getattr(attrs.get(a), "_from_communicate", False) for a in ("_stdout", "_stderr"))
+    # get_stdout() / get_stderr() are allowed from FINISHED on, and an application becomes FINISHED when is_finished()
+    # reports the end of the program: the output of the child is stored by then
+    return [("true_iff_exit_code", natives.eq(I, res, rc is not None)),
+            ("output_captured_when_the_end_is_reported", z3.BoolVal(captured or res is not True))]
 
 
 def state_method_case(rel, cls, meth, allowed_names, extra_args=(), setup_fn=None):
